@@ -45,18 +45,20 @@ Fixpoint dec_acc (acc : Z) (ds : bytes) : Z :=            (* magnitude, saturati
 Definition to_int32 (z : Z) : Z :=
   let m := (z mod 4294967296)%Z in if (m <? 2147483648)%Z then m else (m - 4294967296)%Z.
 
+Definition is_neg (s1 : bytes) : bool := match s1 with c :: _ => c =? 45 | [] => false end.
+Definition sign_rest (s1 : bytes) : bytes :=                      (* optional '-' / '+' *)
+  match s1 with
+  | c :: r => if (c =? 45) || (c =? 43) then r else s1
+  | [] => s1
+  end.
+
 Definition strtol (s : bytes) : Z * bytes :=
   let s1 := skip_ws s in
-  let '(neg, s2) := match s1 with
-                    | 45 :: r => (true, r)
-                    | 43 :: r => (false, r)
-                    | _ => (false, s1)
-                    end in
-  let '(ds, e) := span isdigit s2 in
+  let '(ds, e) := span isdigit (sign_rest s1) in
   match ds with
   | [] => (0%Z, s)                                        (* no conversion: endptr = nptr *)
   | _ => let m := dec_acc 0%Z ds in
-         let v := if neg then Z.max (- m)%Z LONG_MIN else Z.min m LONG_MAX in
+         let v := if is_neg s1 then Z.max (- m)%Z LONG_MIN else Z.min m LONG_MAX in
          (to_int32 v, e)
   end.
 
@@ -197,23 +199,27 @@ Fixpoint process_lines (c : hcfg) (st : hstate) (ls : list bytes) : hstate * lis
 Definition set_rbuf (st : hstate) (b : bytes) : hstate :=
   mkH b (h_cur st) (h_ign st) (h_reqs st) (h_next st) (h_closed st) (h_queue st).
 
+(* the while loop of helperHandleRead over the accumulated buffer, then the roffset / memmove bookkeeping *)
+Definition body2 (c : hcfg) (st : hstate) (ls : list bytes) (tail : bytes) : hstate * list disp :=
+  let '(st1, o1) := process_lines c st ls in
+  match tail with
+  | [] => (st1, o1)
+  | _ => match process c false st1 tail with
+         | Some (st2, o2) => (st2, o1 ++ o2)
+         | None => (set_rbuf st1 tail, o1)            (* memmove(rbuf, msg, msgSize); roffset = msgSize *)
+         end
+  end.
+
+Definition hread_body (c : hcfg) (st : hstate) (buf : bytes) : hstate * list disp :=
+  let '(ls, tail) := split_lf buf in body2 c (set_rbuf st []) ls tail.
+
 (* helperHandleRead with len > 0 bytes appended at rbuf + roffset *)
 Definition hread (c : hcfg) (st : hstate) (chunk : bytes) : hstate * list disp :=
   if h_closed st then (st, [])
   else if h_pending st =? 0 then
     (* "someone spoke without being spoken to": roffset = 0, closePipesSafely() *)
     (mkH [] (h_cur st) (h_ign st) (h_reqs st) (h_next st) true (h_queue st), [])
-  else
-    let buf := h_rbuf st ++ chunk in
-    let '(ls, tail) := split_lf buf in
-    let '(st1, o1) := process_lines c (set_rbuf st []) ls in
-    match tail with
-    | [] => (st1, o1)
-    | _ => match process c false st1 tail with
-           | Some (st2, o2) => (st2, o1 ++ o2)
-           | None => (set_rbuf st1 tail, o1)          (* memmove(rbuf, msg, msgSize); roffset = msgSize *)
-           end
-    end.
+  else hread_body c st (h_rbuf st ++ chunk).
 
 (* EOF / close with a single helper process: SessionBase::dropQueued() and Client::dropQueued() call every request
    back with Helper::Unknown; the popped replyXaction (a partially received reply) is not in `requests` any more
